@@ -562,9 +562,12 @@ func coordPinned() []coordCase {
 		// revalidates must keep the key until its own fetch is answered
 		{MaxAge: 60, Big: true, Acts: []CoAct{act("arrive", 0, "slow"), act("arrive", 1, "fast"), act("arrive", 2, "fast"), {Kind: "adv", Dt: 100},
 			act("answer", 0, "new"), act("resume", 0, ""), act("answer", 1, "304"), act("answer", 2, "304")}},
-		// the resource varies by Origin (the fill moves to another key before it is written) and the fetch fails, is cut or is
-		// refused: the next request with that Origin must find the key free. (No request waits in these schedules: what waiters
-		// of a re-keyed fill do is not in the schedule model - see DESIGN A.4, observation F44.)
+		// the resource varies by Origin (the fill moves to another key before it is written; every client sends the same
+		// Origin): requests that wait for such a fill share it like any other (defect F44, repaired); a fetch that fails, is
+		// cut or is refused after the key change leaves the key free
+		{MaxAge: 60, Vary: true, Acts: []CoAct{act("arrive", 0, "fast"), act("arrive", 1, "fast"), act("arrive", 2, "fast"), act("answer", 0, "new")}},
+		{MaxAge: 60, Vary: true, Acts: []CoAct{act("arrive", 0, "fast"), {Kind: "adv", Dt: 60}, act("arrive", 1, "fast"), act("arrive", 2, "fast"), act("answer", 0, "new"), act("arrive", 3, "fast")}},
+		{MaxAge: 60, Vary: true, Acts: []CoAct{act("arrive", 0, "fast"), act("arrive", 1, "fast"), act("answer", 0, "cut"), act("answer", 1, "new")}},
 		{MaxAge: 60, Vary: true, Acts: []CoAct{act("arrive", 0, "fast"), act("answer", 0, "cut"), act("arrive", 1, "fast"), act("answer", 1, "new")}},
 		{MaxAge: 60, Vary: true, Acts: []CoAct{act("arrive", 0, "fast"), act("answer", 0, "500"), act("arrive", 1, "fast"), act("answer", 1, "new")}},
 		{MaxAge: 60, Vary: true, NoCL: true, Acts: []CoAct{act("arrive", 0, "fast"), act("answer", 0, "cut"), act("arrive", 1, "fast"), act("answer", 1, "new")}},
@@ -631,7 +634,7 @@ func genCoord(tier string, rng *Rng) []Case {
 	}
 	answers := []string{"new", "new", "304", "500", "fail", "cut"}
 	for len(out) < n {
-		c := coordCase{MaxAge: 60, SWR: rng.Chance(20, 100), Big: rng.Chance(25, 100), NoCL: rng.Chance(30, 100)}
+		c := coordCase{MaxAge: 60, SWR: rng.Chance(20, 100), Big: rng.Chance(25, 100), NoCL: rng.Chance(30, 100), Vary: rng.Chance(25, 100)}
 		arrived, fetchesAnswered, resumed := 0, 0, map[int]bool{}
 		slow := map[int]bool{}
 		steps := 4 + rng.Intn(8)
